@@ -704,6 +704,8 @@ class Sum(Box):
         if len(others) != 1:
             return super().then(*others)
         other = others[0] if isinstance(others[0], Sum) else Sum(list(others))
+        if self.cod != other.dom:
+            raise AxiomError(messages.does_not_compose(self, other))
         unit = Sum([], self.dom, other.cod)
         terms = [f.then(g) for f in self.terms for g in other.terms]
         return self.upgrade(sum(terms, unit))
